@@ -61,11 +61,11 @@ def groups(db):
 def check_forwarding(run, db):
     seen_ct = set()
     for ct, cls, opt, fns in groups(db):
-        by = fwdrules.find_pairs(fns)
+        roles = opt.get('roles', {})
+        by = fwdrules.find_pairs(fns, roles)
         if not by:
             continue
         seen_ct.add(ct)
-        roles = opt.get('roles', {})
         for short, f in sorted(by.items()):
             if short in ('max_node_size', 'max_array_size', 'max_alignment', 'next_block_size'):
                 continue
